@@ -101,3 +101,13 @@ Definition cm_get {L} (eqb : L -> L -> bool) (cm : config_map L) (l : L) : wcfg 
 (* the attribute of a config that a pool setting name denotes *)
 Definition pool_attr_differs (attrs : list string) (a b : wcfg) : bool :=
   existsb (fun attr => attr_differs attr a b) attrs.
+
+(* ------------------------------------------------------------------ argument shapes (regenerated from node_iter.py) *)
+(* the positional arguments the applied function receives for one (key, value) item *)
+Definition shape_args {K V : Type} (sh : c18_shape) (k : K) (v : V) : list (K + V) :=
+  match sh with
+  | ShV => [inr v]
+  | ShK => [inl k]
+  | ShKV => [inl k; inr v]
+  | ShVK => [inr v; inl k]
+  end.
